@@ -179,7 +179,7 @@ def _natd(t):
         f.natural_density = val
     elif how in ("tag", "tag_i", "tag_n"):
         s = str(base) + "@" + ("%r" % val) + {"tag": "", "tag_i": "i", "tag_n": "n"}[how]
-        f = P.formula(s)
+        f = P.formula(s, table=_t(t))
     elif how in ("iadd_density", "iadd_natural"):
         # a formula whose densities have been used, then changed in place, then given a new density
         f = P.formula(base, natural_density=t["before"])
@@ -189,11 +189,15 @@ def _natd(t):
             f.density = val
         else:
             f.natural_density = val
+    elif how in ("group_tag", "group_tag_n"):
+        # a density tag on a parenthesised mixture means what it means on a compound
+        s = "(%s wt%% %s // %s)@%r%s" % (t.get("pct", 40), str(base), t.get("second", "H2O"), val, "n" if how == "group_tag_n" else "")
+        f = P.formula(s, table=_t(t))
     elif how == "str_kw_natural":
-        f = P.formula(str(base), natural_density=val)
+        f = P.formula(str(base), natural_density=val, table=_t(t))
     elif how == "str_kw_density":
-        f = P.formula(str(base), density=val)
-    given = {"kind": "none"} if how == "none" else {"kind": "natural" if how in ("kw_natural", "attr_natural", "tag_n", "str_kw_natural", "iadd_natural") else "density",
+        f = P.formula(str(base), density=val, table=_t(t))
+    given = {"kind": "none"} if how == "none" else {"kind": "natural" if how in ("kw_natural", "attr_natural", "tag_n", "str_kw_natural", "iadd_natural", "group_tag_n") else "density",
                                                     "v": dec.to_dec(val)}
     ev = {"ev": "natd", "id": t["id"], "atoms": _atoms_nat(f), "given": given, "density": dec.enc(f.density)}
     ev["natural_density"] = dec.enc(f.natural_density) if f.density is not None else {"k": "none"}
